@@ -408,7 +408,8 @@ fn drive<T: Transport>(t: T, p: &VsParams, rng: &mut SmallRng) -> String {
                     5 => { pk.op = 4; pk.flags = 3; }
                     6..=11 => {
                         pk.op = 5;
-                        pk.want = rng.gen_range(0..300);
+                        // (any length up to a packet that fills a receive buffer exactly: 512 - 44 bytes)
+                        pk.want = match rng.gen_range(0..8) { 0 => 468, 1 => 467, 2 => 1000, _ => rng.gen_range(0..300) };
                     }
                     12 | 13 => pk.op = 6,
                     14 => pk.op = 7,
